@@ -261,3 +261,217 @@ func isStringType(t types.Type) bool {
 	b, ok := t.Underlying().(*types.Basic)
 	return ok && b.Info()&types.IsString != 0
 }
+
+// appendBytesLoop recognises the byte-by-byte copy of a string
+//
+//	b := []byte{}            // or nil, or make([]byte, 0, n)
+//	for i := 0; i < len(s); i++ {
+//		b = append(b, s[i])
+//	}
+//
+// (nothing else in the loop): afterwards b holds the bytes of s, like []byte(s).
+func (e *Eval) appendBytesLoop(fr *frame, h *ssa.BasicBlock, body map[*ssa.BasicBlock]bool, in State, done map[*ssa.BasicBlock]bool) bool {
+	if len(h.Succs) != 2 || len(e.activeLoops) > 0 || len(body) != 2 {
+		return false
+	}
+	ifi, ok := h.Instrs[len(h.Instrs)-1].(*ssa.If)
+	if !ok {
+		return false
+	}
+	cont, exit := h.Succs[0], h.Succs[1]
+	if !body[cont] || body[exit] {
+		return false
+	}
+	cmp, ok := ifi.Cond.(*ssa.BinOp)
+	if !ok || cmp.Op != token.LSS || cmp.Block() != h {
+		return false
+	}
+	iphi, ok := cmp.X.(*ssa.Phi)
+	if !ok || iphi.Block() != h {
+		return false
+	}
+	ln, ok := cmp.Y.(*ssa.Call)
+	if !ok || calleeName(ln) != "len" || len(ln.Call.Args) != 1 {
+		return false
+	}
+	src := ln.Call.Args[0]
+	if !isStringType(src.Type()) || body[srcBlock(src)] && srcBlock(src) != nil && srcBlock(src) != h {
+		return false
+	}
+	// header: the two φs, (len), the comparison, the branch
+	var acc *ssa.Phi
+	for _, ins := range h.Instrs {
+		switch x := ins.(type) {
+		case *ssa.Phi:
+			if x == iphi {
+				continue
+			}
+			if acc != nil {
+				return false
+			}
+			acc = x
+		case *ssa.DebugRef, *ssa.If:
+		case *ssa.BinOp:
+			if x != cmp {
+				return false
+			}
+		case *ssa.Call:
+			if x != ln {
+				return false
+			}
+		default:
+			return false
+		}
+	}
+	if acc == nil {
+		return false
+	}
+	if st, ok := acc.Type().Underlying().(*types.Slice); !ok {
+		return false
+	} else if b, ok := st.Elem().Underlying().(*types.Basic); !ok || b.Kind() != types.Uint8 {
+		return false
+	}
+	// body (one block): s[i], the variadic array, append(acc, …), i+1, jump
+	var app *ssa.Call
+	var inc *ssa.BinOp
+	var lk ssa.Value // s[i]
+	var arr *ssa.Alloc
+	for _, ins := range cont.Instrs {
+		switch x := ins.(type) {
+		case *ssa.DebugRef, *ssa.Jump, *ssa.IndexAddr, *ssa.Slice, *ssa.Store:
+		case *ssa.Lookup:
+			if lk != nil || x.X != src || x.Index != ssa.Value(iphi) || x.CommaOk {
+				return false
+			}
+			lk = x
+		case *ssa.Index:
+			if lk != nil || x.X != src || x.Index != ssa.Value(iphi) {
+				return false
+			}
+			lk = x
+		case *ssa.Alloc:
+			if arr != nil {
+				return false
+			}
+			arr = x
+		case *ssa.BinOp:
+			if inc != nil || x.Op != token.ADD || x.X != ssa.Value(iphi) {
+				return false
+			}
+			if one, ok := intConst(x.Y); !ok || one != 1 {
+				return false
+			}
+			inc = x
+		case *ssa.Call:
+			if calleeName(x) == "len" && len(x.Call.Args) == 1 && x.Call.Args[0] == src {
+				continue
+			}
+			if app != nil || calleeName(x) != "append" || len(x.Call.Args) != 2 || x.Call.Args[0] != ssa.Value(acc) {
+				return false
+			}
+			app = x
+		default:
+			return false
+		}
+	}
+	if app == nil || inc == nil || lk == nil || arr == nil {
+		return false
+	}
+	sl, ok := app.Call.Args[1].(*ssa.Slice)
+	if !ok || sl.X != ssa.Value(arr) {
+		return false
+	}
+	if at, ok := arr.Type().Underlying().(*types.Pointer).Elem().Underlying().(*types.Array); !ok || at.Len() != 1 {
+		return false
+	}
+	nStores := 0
+	for _, ref := range *arr.Referrers() {
+		switch x := ref.(type) {
+		case *ssa.IndexAddr:
+			for _, r2 := range *x.Referrers() {
+				st, ok := r2.(*ssa.Store)
+				if !ok || st.Val != lk {
+					return false
+				}
+				nStores++
+			}
+		case *ssa.Slice:
+			if x != sl {
+				return false
+			}
+		case *ssa.DebugRef:
+		default:
+			return false
+		}
+	}
+	if nStores != 1 {
+		return false
+	}
+	// φ edges: i from 0, then i+1; acc from an empty slice, then the append
+	for i, p := range h.Preds {
+		if body[p] {
+			if iphi.Edges[i] != ssa.Value(inc) || acc.Edges[i] != ssa.Value(app) {
+				return false
+			}
+			continue
+		}
+		if c, ok := intConst(iphi.Edges[i]); !ok || c != 0 {
+			return false
+		}
+		switch v := e.val(fr, acc.Edges[i]).(type) {
+		case NilV:
+		case BytesV:
+			cur := e.resolveBytes(v, in)
+			if !cur.LenKnown || !cur.Len.Const() || cur.Len.A != 0 {
+				return false
+			}
+		default:
+			return false
+		}
+	}
+	// nothing defined in the loop is used after it, except the accumulator
+	for b := range body {
+		for _, ins := range b.Instrs {
+			v, ok := ins.(ssa.Value)
+			if !ok || v == ssa.Value(acc) || v.Referrers() == nil {
+				continue
+			}
+			for _, ref := range *v.Referrers() {
+				if _, dbg := ref.(*ssa.DebugRef); dbg {
+					continue
+				}
+				if !body[ref.Block()] {
+					return false
+				}
+			}
+		}
+	}
+	sv, ok := e.val(fr, src).(StrV)
+	if !ok {
+		return false
+	}
+	for b := range body {
+		done[b] = true
+	}
+	o := e.newObj(okBuf, app, "bytes of a string copied one by one")
+	res := BytesV{Src: "conv(" + sv.String() + ")", Str: sv}
+	st := in.clone()
+	st[o] = BufC{res}
+	res.Obj = o
+	fr.env[acc] = res
+	fr.env[iphi] = e.lenOf(fr, sv, st)
+	e.event("P5", Discharged, ifi, "loop in %s copies a string byte by byte: a counter running to its length", fr.fn.Name())
+	e.event("P2", Discharged, lk.(ssa.Instruction), "string index below its length (loop test)")
+	e.Loops = append(e.Loops, LoopInfo{Fn: fr.fn, Header: h, T: -1, IV: "bytes of a string"})
+	e.setEdgeRaw(fr, h, exit, st)
+	fr.afterLp[exit] = true
+	return true
+}
+
+// srcBlock: the block that defines v (nil for parameters, constants, globals).
+func srcBlock(v ssa.Value) *ssa.BasicBlock {
+	if in, ok := v.(ssa.Instruction); ok {
+		return in.Block()
+	}
+	return nil
+}
